@@ -77,18 +77,18 @@ theorem core_16 (s p x : Int) (hs : 0 ≤ s ∧ s < 65536) (hp : 0 ≤ p ∧ p <
 theorem decPredicted_eq_enc (P predictor row col : Int) (nb : Nb) :
     decPredicted P predictor row col nb = encPredicted P predictor row col nb := rfl
 
-theorem diff_wrap_inverse_partial' (P predictor row col : Int) (nb : Nb) (sample : Int)
+theorem wrap_once_inverse' (P predictor row col : Int) (nb : Nb) (sample : Int)
     (hP : 2 ≤ P ∧ P ≤ 16) (hp : 1 ≤ predictor ∧ predictor ≤ 7)
     (hnb : NbIn P nb) (hs : 0 ≤ sample ∧ sample < Go.shl 1 P)
     (hok : predictor = 1 ∨ predictor = 2 ∨ predictor = 3 ∨ predictor = 7 ∨ P ≤ 14 ∨
        (0 ≤ encPredicted P predictor row col nb ∧ encPredicted P predictor row col nb < Go.shl 1 P)) :
-    decSample P (decPredicted P predictor row col nb) (encDiff sample (encPredicted P predictor row col nb)) = sample := by
+    sv1DecSample P (decPredicted P predictor row col nb) (encDiff sample (encPredicted P predictor row col nb)) = sample := by
   have hf := pow_facts P hP.1 hP.2
   have hr := encPredicted_range P predictor row col nb hP hp hnb
   simp only at hf hr
   rw [decPredicted_eq_enc]
   generalize encPredicted P predictor row col nb = p at *
-  simp only [decSample, wrapDec, encDiff, losslessDifference]
+  simp only [sv1DecSample, wrapDec, encDiff, losslessDifference]
   generalize Go.shl 1 P = M at *
   by_cases h16 : P = 16
   · have hM : M = 65536 := hf.2.2.2.2.2.1 h16
@@ -245,20 +245,21 @@ theorem category_roundtrip' (d : Int) (hlo : -32768 ≤ d) (hhi : d ≤ 32767) :
         · intro h; omega
         · intro h; omega
 
-/-! ### the repaired decoder shape -/
+/-! ### the decoder's mask shape (jpeg/lossless since fix 479126d) -/
 
-theorem decSamplePatched_eq (P p d : Int) (hP : 0 ≤ P ∧ P ≤ 62) :
-    decSamplePatched P p d = (p + d) % (2:Int) ^ P.toNat := by
-  unfold decSamplePatched
+theorem decSample_eq (P p d : Int) (hP : 0 ≤ P ∧ P ≤ 62) :
+    decSample P p d = (p + d) % (2:Int) ^ P.toNat := by
+  unfold decSample
+  simp only
   have : Go.shl 1 P = (2:Int) ^ P.toNat := by simp [Go.shl]
   rw [this]
   exact and_mask _ _ (by omega)
 
-/-- L2 for the repaired decoder: holds for EVERY predicted value (in range or not) -/
-theorem diff_wrap_inverse_patched' (P p sample : Int) (hP : 2 ≤ P ∧ P ≤ 16)
+/-- L2 for jpeg/lossless (mask shape): holds for EVERY predicted value (in range or not) -/
+theorem diff_wrap_inverse' (P p sample : Int) (hP : 2 ≤ P ∧ P ≤ 16)
     (hs : 0 ≤ sample ∧ sample < Go.shl 1 P) :
-    decSamplePatched P p (encDiff sample p) = sample := by
-  rw [decSamplePatched_eq P _ _ (by omega)]
+    decSample P p (encDiff sample p) = sample := by
+  rw [decSample_eq P _ _ (by omega)]
   have hM : Go.shl 1 P = (2:Int) ^ P.toNat := by simp [Go.shl]
   rw [hM] at hs
   simp only [encDiff, losslessDifference, Go.wrap16]
